@@ -9,7 +9,7 @@ import (
 // C20 — a search result is a snapshot (DESIGN 4/C20).
 
 func init() {
-	drivers["C20"] = &driver{cases: tierN(400, 6000), run: runC20}
+	drivers["C20"] = &driver{cases: tierN(400, 12000), run: runC20}
 }
 
 func runC20(k int, rng *Rng) CaseResult {
